@@ -369,6 +369,10 @@ def positions(rng, T, val, single, star=False):
         ('(some i in [1] satisfies true) and %s in [0..99999999999999]' % T, True), ('(every i in [1] satisfies true) and %s in [0..99999999999999]' % T, True),
         ('for i in [1] return %s in [0..99999999999999]' % T, [True]), ('[for i in [1] return i, %s in [0..99999999999999]][2]' % T, True),
         ('some i in [%s] satisfies i in [0..99999999999999]' % T, True),
+        # the name BEHIND a function definition (with and without formal parameters), a context literal and a filter in the same expression: whatever
+        # these push on the parsing scope is popped again, the enclosing names stay bound (seeded change C10_i: `function()` popped twice)
+        ('[function() 1, %s][2]' % T, val), ('[function(q) q, %s][2]' % T, val), ('if (function() true)() then %s else 0' % T, val),
+        ('[{k: 1}, %s][2]' % T, val), ('{f: function() 5, r: f() + %s}.r' % P, 5 + val), ('[[1][item = 1], %s][2]' % T, val),
     ]
     if single:
         # the name as an interval endpoint and as the operand of a unary comparison, inside a scope pushed by a binder while the name is bound in an
